@@ -23,6 +23,7 @@ import (
 	"hash/fnv"
 	"math"
 	"math/rand"
+	"sort"
 	"strings"
 	"time"
 
@@ -51,6 +52,7 @@ type fcase struct {
 	Fn     string  `json:"fn"`
 	Par    int     `json:"par"`
 	W      int     `json:"w"`
+	Desc   int     `json:"desc"` // 1: ORDER BY time DESC (top/bottom cases)
 	Series [][]int `json:"series"`
 	Exp    []xrow  `json:"exp"`
 	Conc   *conc   `json:"conc,omitempty"` // pinned concretisation (replay files)
@@ -189,7 +191,7 @@ func chooseConcs(c *fcase, seed int64, n int) []conc {
 		return []conc{*c.Conc}
 	}
 	h := fnv.New64a()
-	b, _ := json.Marshal([]interface{}{c.Fn, c.Par, c.W, c.Series})
+	b, _ := json.Marshal([]interface{}{c.Fn, c.Par, c.W, c.Desc, c.Series})
 	h.Write(b)
 	rng := rand.New(rand.NewSource(seed*1000003 + int64(h.Sum64()>>1)))
 	var out []conc
@@ -245,6 +247,9 @@ func render(c *fcase, k conc) (string, error) {
 	}
 	if c.W > 0 {
 		q += fmt.Sprintf(" GROUP BY time(%s) fill(none)", dur(int64(c.W)*U))
+	}
+	if c.Desc == 1 {
+		q += " ORDER BY time DESC"
 	}
 	return q, nil
 }
@@ -497,6 +502,74 @@ func directStream(c *fcase, k conc, pts []pt, m *mapper) ([]grow, bool) {
 	return out, true
 }
 
+// directTopBottom drives New*{Top,Bottom}Reducer directly with the points in the given order (the order in which points
+// of merged series or of a descending query reach the reducer is not the time order) and returns the emitted points
+// sorted by time.
+func directTopBottom(c *fcase, pts []pt, m *mapper, order []int) []grow {
+	var out []grow
+	n := c.Par
+	if !m.float {
+		var agg query.IntegerPointAggregator
+		var em query.IntegerPointEmitter
+		if c.Fn == "top" {
+			r := query.NewIntegerTopReducer(n)
+			agg, em = r, r
+		} else {
+			r := query.NewIntegerBottomReducer(n)
+			agg, em = r, r
+		}
+		for _, i := range order {
+			agg.AggregateInteger(&query.IntegerPoint{Name: "cpu", Time: pts[i].t, Value: pts[i].v * m.iscale})
+		}
+		for _, e := range em.Emit() {
+			out = append(out, grow{T: e.Time, V: e.Value})
+		}
+	} else {
+		var agg query.FloatPointAggregator
+		var em query.FloatPointEmitter
+		if c.Fn == "top" {
+			r := query.NewFloatTopReducer(n)
+			agg, em = r, r
+		} else {
+			r := query.NewFloatBottomReducer(n)
+			agg, em = r, r
+		}
+		for _, i := range order {
+			agg.AggregateFloat(&query.FloatPoint{Name: "cpu", Time: pts[i].t, Value: float64(pts[i].v) * m.vscale})
+		}
+		for _, e := range em.Emit() {
+			out = append(out, grow{T: e.Time, V: e.Value})
+		}
+	}
+	sort.Slice(out, func(a, b int) bool {
+		if c.Desc == 1 {
+			return out[a].T > out[b].T
+		}
+		return out[a].T < out[b].T
+	})
+	return out
+}
+
+// feedOrders: ascending, descending, and an interleaving (even positions, then odd positions backwards).
+func feedOrders(n int) [][]int {
+	asc := make([]int, n)
+	desc := make([]int, n)
+	var zig []int
+	for i := 0; i < n; i++ {
+		asc[i] = i
+		desc[i] = n - 1 - i
+	}
+	for i := 0; i < n; i += 2 {
+		zig = append(zig, i)
+	}
+	for i := n - 1; i >= 0; i-- {
+		if i%2 == 1 {
+			zig = append(zig, i)
+		}
+	}
+	return [][]int{asc, desc, zig}
+}
+
 // ---------------------------------------------------------------- known-finding predicates
 
 // modeTie: the failing case is a mode() whose input has at least two values sharing the maximal frequency.
@@ -608,7 +681,7 @@ func adapter(raw json.RawMessage, env *rt.Env) rt.Result {
 	concs := chooseConcs(&c, env.Seed, nconc)
 	res := rt.Result{OK: true}
 	res.Nontrivial = len(c.Series) >= 2
-	res.Sig = fmt.Sprintf("%s%v/w%d/%v", c.Fn, c.Par, c.W, c.Series)
+	res.Sig = fmt.Sprintf("%s%v/w%d/d%d/%v", c.Fn, c.Par, c.W, c.Desc, c.Series)
 	for _, k := range concs {
 		m := &mapper{float: k.Typ == "float"}
 		m.vscale = math.Ldexp(1, k.VShift)
@@ -659,6 +732,17 @@ func adapter(raw json.RawMessage, env *rt.Env) rt.Result {
 			r.Extra = map[string]interface{}{"conc": k, "query": q}
 			r.Sig = res.Sig
 			return r
+		}
+		if c.W == 0 && (c.Fn == "top" || c.Fn == "bottom") {
+			for oi, ord := range feedOrders(len(m.pts)) {
+				res.Evals++
+				dgot := directTopBottom(&c, m.pts, m, ord)
+				if ok, why := cc.compareRows(dgot); !ok {
+					r := rt.Fail(2, fmt.Sprintf("direct reducer %s(%d), feed order %d %v: %s", c.Fn, c.Par, oi, ord, why), dgot, c.Exp)
+					r.Extra = map[string]interface{}{"conc": k}
+					return r
+				}
+			}
 		}
 		if c.W == 0 {
 			if dgot, ok := directStream(&c, k, m.pts, m); ok {
